@@ -177,7 +177,82 @@ def stress_variants(specs, base):
             out.append(mu.Variant('%s swap-eq-operands' % spec, 'neutral', path, (lambda d: (lambda tree: _swap_eq(mu.find_def(tree, d))))(dotted)))
         out.append(mu.Variant('%s noop-first' % spec, 'neutral', path,
                               (lambda d: (lambda tree: mu.insert_first(mu.find_def(tree, d), "'no operation'")))(dotted)))
+        for kind, tr in (('inline-result', _inline_result), ('outline-result', _outline_result), ('if-else-swap', _if_else_swap), ('augassign-expand', _aug_expand)):
+            import copy
+            if tr(copy.deepcopy(fn)):
+                out.append(mu.Variant('%s %s' % (spec, kind), 'neutral', path, (lambda d, t: (lambda tree: t(mu.find_def(tree, d))))(dotted, tr)))
     return out
+
+
+def _stmt_blocks(fn):
+    import ast
+    for n in ast.walk(fn):
+        for fld in ('body', 'orelse', 'finalbody'):
+            b = getattr(n, fld, None)
+            if isinstance(b, list) and b and isinstance(b[0], ast.stmt):
+                yield b
+
+
+def _inline_result(fn):
+    """`v = e` directly followed by `return v` (v used nowhere else)  ->  `return e`"""
+    import ast
+    n = 0
+    for b in _stmt_blocks(fn):
+        for i in range(len(b) - 1):
+            a, r = b[i], b[i + 1]
+            if isinstance(a, ast.Assign) and len(a.targets) == 1 and isinstance(a.targets[0], ast.Name) and isinstance(r, ast.Return) \
+                    and isinstance(r.value, ast.Name) and r.value.id == a.targets[0].id:
+                uses = [x for x in ast.walk(fn) if isinstance(x, ast.Name) and x.id == a.targets[0].id]
+                if len(uses) == 2:
+                    b[i:i + 2] = [ast.copy_location(ast.Return(value=a.value), a)]
+                    n += 1
+                    break
+    return n > 0
+
+
+def _outline_result(fn):
+    """`return <call>`  ->  `outlined_ = <call>; return outlined_`"""
+    import ast
+    n = 0
+    for b in _stmt_blocks(fn):
+        for r in list(b):
+            if isinstance(r, ast.Return) and isinstance(r.value, ast.Call):
+                a = ast.copy_location(ast.Assign(targets=[ast.Name(id='outlined_', ctx=ast.Store())], value=r.value), r)
+                i = b.index(r)
+                b[i:i + 1] = [a, ast.copy_location(ast.Return(value=ast.Name(id='outlined_', ctx=ast.Load())), r)]
+                n += 1
+    if n:
+        ast.fix_missing_locations(fn)
+    return n > 0
+
+
+def _if_else_swap(fn):
+    """`if c: A else: B`  ->  `if not c: B else: A` (also on the last arm of an elif chain)"""
+    import ast
+    n = 0
+    for x in ast.walk(fn):
+        if isinstance(x, ast.If) and x.orelse and not (len(x.orelse) == 1 and isinstance(x.orelse[0], ast.If)):
+            x.test = ast.copy_location(ast.UnaryOp(op=ast.Not(), operand=x.test), x.test)
+            x.body, x.orelse = x.orelse, x.body
+            n += 1
+    if n:
+        ast.fix_missing_locations(fn)
+    return n > 0
+
+
+def _aug_expand(fn):
+    """`x += <int>`  ->  `x = x + <int>` for plain names"""
+    import ast
+    n = 0
+    for b in _stmt_blocks(fn):
+        for i, a in enumerate(b):
+            if isinstance(a, ast.AugAssign) and isinstance(a.target, ast.Name) and isinstance(a.value, ast.Constant) and isinstance(a.value.value, int):
+                b[i] = ast.copy_location(ast.Assign(targets=[ast.Name(id=a.target.id, ctx=ast.Store())],
+                                                    value=ast.BinOp(left=ast.Name(id=a.target.id, ctx=ast.Load()), op=a.op, right=a.value)), a)
+                n += 1
+    if n:
+        ast.fix_missing_locations(fn)
+    return n > 0
 
 
 def stress(prop, mod, rep, jobs=None):
